@@ -51,7 +51,41 @@ def strategy(tier):
     return s()
 
 
+class process_tz(object):
+    """Run a block with the process time zone set (the calendar buckets are defined in UTC whatever the machine's zone)."""
+    def __init__(self, zone):
+        self.zone = zone
+
+    def __enter__(self):
+        import time
+        self.old = os.environ.get("TZ")
+        if self.zone:
+            os.environ["TZ"] = self.zone
+            time.tzset()
+
+    def __exit__(self, *a):
+        import time
+        if self.zone:
+            if self.old is None:
+                os.environ.pop("TZ", None)
+            else:
+                os.environ["TZ"] = self.old
+            time.tzset()
+        return False
+
+
+TZ_POOL = [None, None, "PST8", "CET-1", "NZST-12", "UTC"]
+
+
 def check_api(case, ctx):
+    zone = TZ_POOL[len(case["spec"]["times"]) % len(TZ_POOL)] if "tz" not in case else case["tz"]
+    if zone:
+        ctx.label("tz=" + zone)
+    with process_tz(zone):
+        return _check_api(dict(case, tz=zone), ctx)
+
+
+def _check_api(case, ctx):
     import numpy as np
     from .. import mat
     spec = case["spec"]
